@@ -325,6 +325,19 @@ def _cas_outcome_facts(b, s, facts):
     for f in facts:
         if f[0] == 'variant' and (f[1] == res or U.local_from_call(b, f[1], s.bb)) and not _is_wrapped(b, f[1], s):
             return f[2] == 0
+        if f[0] == 'variant':
+            # the Result looked at through `.ok()` (Some = success), `.err()` (Some = failure), `.map(..)` / `.map_err(..)` (same variant)
+            src = b.origins(f[1])
+            if len(src) == 1 and next(iter(src))[0] == 'call':
+                wt = b.term(next(iter(src))[1])
+                nm = U.callee_name(wt)
+                if nm in ('ok', 'err', 'map', 'map_err') and 'result::Result' in wt['callee'].get('path', '') and wt['args'] \
+                        and b.origins(wt['args'][0]) == {('call', s.bb)}:
+                    if nm == 'ok':
+                        return f[2] == 1
+                    if nm == 'err':
+                        return f[2] == 0
+                    return f[2] == 0
         if f[0] == 'bool' and f[1] and f[1][0] == 'call' and U.callee_name(f[1][2]) in ('is_ok', 'is_err') and ('call', s.bb) in b.origins(f[1][2]['args'][0]):
             return f[2] == (U.callee_name(f[1][2]) == 'is_ok')
     return None
